@@ -36,6 +36,10 @@ def run(ctx):
     ctx.guarded(r, AC.check_magic_constants)
     r = ctx.rule("R4", "bulk driver: scratch iff n < SIMD, main call over the largest multiple, remainder re-evaluates the last full vector with equal input/output offsets, exactly n samples returned", 11)
     ctx.guarded(r, JD.r_bulk_driver)
+    from . import C10 as C10_
+
+    r = ctx.rule("R4b", "every evaluator entry point sizes its outputs from the tape on every path (an empty batch included)", 19)
+    ctx.guarded(r, C10_.r1_buffers)
     r = ctx.rule("R2c", "stride, element-size, register-window and frame constants agree with the data types", 19)
     ctx.guarded(r, JD.r_strides)
     r = ctx.rule("R2k", "load_imm loads its argument on every path (or every clobber of the immediate register invalidates its cache)", 4)
